@@ -47,6 +47,8 @@ type C01 struct {
 	SlowEchoAt int            `json:"slow_echo_at,omitempty"`
 	SlowEchoUS int64          `json:"slow_echo_us,omitempty"`
 	NoisePct   int            `json:"noise_pct"`
+	// Wrap > 0: the device's terminal wraps the echoed input line at this width (see peer.CLI.WrapWidth)
+	Wrap int `json:"wrap,omitempty"`
 	NL         string         `json:"nl"`
 	DevSeed    uint64         `json:"dev_seed"`
 	Net        simnet.NetPlan `json:"net"`
@@ -173,6 +175,9 @@ func genC01(seed uint64, run int, tier string) Scenario {
 		}
 		sc.NoisePct = pick(r, 2, 10, 30)
 	}
+	if !sc.Exact && r.IntN(4) == 0 {
+		sc.Wrap = pick(r, 16, 20, 40, 80)
+	}
 	sc.Net = genNet(r, rd, kernel.Stream(rs, "netseed").Uint64())
 	if !sc.Network && r.IntN(16) == 0 {
 		// one command whose echo is a long time coming: well over half of the operation timeout
@@ -199,6 +204,7 @@ func c01Device(sc *C01) *peer.CLI {
 	d.Banner = sc.Banner
 	d.Noise = sc.Noise
 	d.NoisePct = sc.NoisePct
+	d.WrapWidth = sc.Wrap
 	d.NL = sc.NL
 	if sc.SlowEchoUS > 0 {
 		d.LineEchoDelay = map[int]time.Duration{sc.SlowEchoAt: Micro(sc.SlowEchoUS)}
